@@ -5,6 +5,7 @@
 -/
 import ShVerif.Proofs.L4PrintGen
 import ShVerif.Proofs.L4ParseWF
+import ShVerif.Proofs.L4Fuel
 namespace ShVerif.Props.C01
 open ShVerif ShVerif.L4
 
@@ -367,12 +368,21 @@ theorem roundtrip_src_total (o : Opts) (hr : refuse o = false) (l : Lang) (src :
 example : (match parse .bash [] with | .ok f => f.norm.beq NStmts.nil | .error _ => false) = true := by
   decide +kernel
 
+/-- **`fuel_sufficient`**: the model parser never runs out of the fuel it gives itself
+    (`6·|tokens| + 8`): its answer is always a tree, a syntax error or `outside`, so "parses" in the
+    `_src` theorems means what the parser answers, never an artefact of the fuel
+    (`Proofs/L4Fuel.lean`: each parser function needs at most `6·|unread tokens| + c` fuel). -/
+theorem fuel_sufficient (l : Lang) (src : Bytes) : parse l src ≠ .error .outOfFuel := L4.parse_fuel l src
+
+/-- on token lists -/
+theorem fuel_sufficient_toks (toks : List TokPos) : parseToks toks ≠ .error .outOfFuel := L4.parseToks_fuel toks
+
 /-! ## Stated, not proved
 
-  One parser fact.  A definition, not a theorem: nothing below is claimed (`parse_of_Prints` shows
-  that the fuel suffices on every concrete syntax). -/
+  The remaining half of the fuel statement: that *more* fuel gives the same answer (monotonicity).
+  A definition, not a theorem; its second conjunct is `fuel_sufficient_toks`. -/
 
-/-- fuel `|tokens|·6 + 8` is never used up, on any input -/
+/-- fuel `|tokens|·6 + 8` is never used up, and any larger fuel gives the same answer -/
 def fuel_sufficient_statement : Prop :=
   ∀ (toks : List TokPos) (fuel : Nat), fuel ≥ parseFuelFor toks →
     parseToksF fuel toks = parseToks toks ∧ parseToks toks ≠ .error .outOfFuel
